@@ -142,7 +142,7 @@ fn is_int_series(xs: &[f64]) -> bool {
 fn apply_mask(ks: &[i64], den: f64, mask: &[bool]) -> Vec<f64> {
     let mut v = Vec::with_capacity(ks.len());
     for i in 0..ks.len() {
-        v.push(if mask[i] { f64::NAN } else { ks[i] as f64 / den });
+        v.push(if mask[i] { vh::nan_at(i) } else { ks[i] as f64 / den });
     }
     v
 }
